@@ -26,7 +26,7 @@ Profile GetProfile(const std::string& name, bool thorough) {
     p.pm_cmd_fail = 220; p.pm_cmd_signal = 60; p.w_edit = 4; p.pm_io_error = 0;
     p.gen.features &= ~F_REGEN;
   } else if (name == "C06") {
-    p.pm_cmd_fail = 80; p.pm_interrupt = 80; p.pm_jobserver = 500; p.pm_io_error = 120; p.pm_load = 100;
+    p.pm_cmd_fail = 80; p.pm_interrupt = 80; p.pm_jobserver = 500; p.pm_io_error = 120; p.pm_load = 100; p.w_block_dir = 1;
     p.gen.features |= F_POOLS | F_CONSOLE;
   } else if (name == "C07") {
     p.pm_interrupt = 350; p.pm_crash = 300; p.pm_torn = 150; p.pm_cmd_fail = 30;
@@ -42,7 +42,8 @@ Profile GetProfile(const std::string& name, bool thorough) {
     p.w_clean = 8; p.w_cleandead = 4; p.w_manifest_edit = 4; p.w_build = 8; p.w_del_out = 2; p.pm_cmd_fail = 60;
     p.gen.features |= F_GENERATOR | F_DYNDEP | F_RSP | F_DEPFILE;
   } else if (name == "C19") {
-    p.w_tool_ro = 8; p.w_dry = 6; p.w_build = 6; p.pm_cmd_fail = 40; p.gen.features |= F_HOSTILE_NAMES;
+    p.w_tool_ro = 8; p.w_dry = 6; p.w_build = 6; p.pm_cmd_fail = 40; p.gen.features |= F_HOSTILE_NAMES | F_SUBDIRS;
+    p.pm_io_error = 150; p.w_block_dir = 2;
   } else if (name == "C13") {
     p.pm_cmd_fail = 80; p.pm_interrupt = 50; p.pm_crash = 100; p.pm_torn = 100; p.pm_io_error = 150; p.damage = true;
     p.pm_tty = 300; p.hostile_output = true;
@@ -304,7 +305,9 @@ struct Driver {
       if (p.fp.crash_at < 0) p.fp.crash_at = pick(nullptr);
     }
     if (want_io) {
-      int64_t k = pick("sOmuntPSwrh");
+      // (for a dry run only calls of the planning/starting phase: a log that
+      // cannot be read is discarded by design, with or without -n)
+      int64_t k = pick(p.dry ? "smu" : "sOmuntPSwrh");
       if (k >= 0) p.fp.io_errors[k] = 5;
     }
     p.fp.orphans_finish = H(2) == 1;
@@ -574,6 +577,7 @@ struct Driver {
     p.targets = H(2) ? SomeTargets(2) : std::vector<std::string>();
     bool pending_dyndep = false;
     for (auto& d : w.sc.dyndeps) if (d.producer >= 0) pending_dyndep = true;
+    PlanProcessFaults(p);   // a failing syscall must not make a dry run touch the tree either
     Note("dry run " + PlanText(p));
     FsSnap before = Snap();
     InvRecord r = w.RunInvocation(p);
@@ -900,6 +904,18 @@ struct Driver {
     DoBuild();
   }
 
+  // A regular file sits where an output directory would have to be created
+  // (or the obstacle is removed again).
+  void DoBlockDir() {
+    std::vector<std::string> dirs;
+    for (const Stmt& s : w.sc.stmts) if (s.alive && !s.phony) for (auto& o : s.outs) { size_t sl = o.find('/'); if (sl != std::string::npos) dirs.push_back(o.substr(0, sl)); }
+    if (dirs.empty()) return;
+    std::string dir = dirs[H((uint32_t)dirs.size())];
+    Inode* n = w.k.fs.Find(w.k.Abs(dir));
+    if (!n) { w.k.WriteFile(dir, "not a directory\n", true); Note("block directory " + dir + " with a regular file"); rr.stats.n["dir_blocked"]++; }
+    else if (n->kind == Inode::kFile) { w.k.Remove(dir); Note("unblock directory " + dir); }
+  }
+
   void DoEmptySource() {
     std::vector<std::string> s = EditableSources();
     if (s.empty()) return;
@@ -1041,7 +1057,7 @@ struct Driver {
       if (i == 0 && H(8) != 0) { DoBuild(); continue; }
       int ws[] = {prof.w_build, prof.w_edit, prof.w_touch, prof.w_del_out, prof.w_change_cmd, prof.w_change_rsp,
                   prof.w_regen, prof.w_del_log, prof.w_del_depfile, prof.w_clean, prof.w_cleandead, prof.w_tool_ro,
-                  prof.w_dry, prof.w_manifest_edit, prof.w_edit_includes, prof.w_empty_source, prof.w_inflate_log, prof.w_include_churn};
+                  prof.w_dry, prof.w_manifest_edit, prof.w_edit_includes, prof.w_empty_source, prof.w_inflate_log, prof.w_include_churn, prof.w_block_dir};
       int total = 0;
       for (int x : ws) total += x;
       int c = (int)H((uint32_t)total), op = 0;
@@ -1065,6 +1081,7 @@ struct Driver {
         case 15: DoEmptySource(); break;
         case 16: DoInflateLog(); break;
         case 17: DoIncludeChurn(); break;
+        case 18: DoBlockDir(); break;
       }
     }
     // histories end with a build so that every change is exercised
